@@ -184,6 +184,7 @@ fn translate_free_helpers(files: &[File], reg: &mut Registry, out: &mut String, 
             }
             out.push_str(&text);
             out.push('\n');
+            reg.helpers.borrow_mut().push(name.clone());
             reg.fns.insert(name, fsig);
         }
     }
@@ -499,7 +500,20 @@ fn translate_unit(repo: &Path, u: &Unit, reg: &mut Registry) -> Res<String> {
             }
         }
     }
-    writeln!(out, "end {}", u.module).unwrap();
+    // a tactic that unfolds every helper translated for this unit, whatever it is called and wherever
+    // it lives in the source: proofs use it instead of naming a helper (a nested fn moved to module
+    // level or renamed then leaves them untouched)
+    let unit_name = u.module.rsplit('.').next().unwrap_or(&u.module).to_string();
+    let mut hs: Vec<String> = std::mem::take(&mut *reg.helpers.borrow_mut());
+    hs.dedup();
+    writeln!(out, "end {}\n", u.module).unwrap();
+    writeln!(out, "/-- unfolds the helper functions the translator emitted for this unit ({}) -/", if hs.is_empty() { "none".to_string() } else { hs.join(", ") }).unwrap();
+    if hs.is_empty() {
+        writeln!(out, "macro \"gen_unfold_helpers_{}\" : tactic => `(tactic| skip)", unit_name).unwrap();
+    } else {
+        let full: Vec<String> = hs.iter().map(|h| format!("{}.{}", u.module, h)).collect();
+        writeln!(out, "macro \"gen_unfold_helpers_{}\" : tactic => `(tactic| simp only [{}])", unit_name, full.join(", ")).unwrap();
+    }
     Ok(out)
 }
 
